@@ -17,6 +17,7 @@
 From Coq Require Import ZArith List Bool Lia.
 Require Import JV.Base.PyPrelude JV.Model.NJobs JV.Gen.T_njobs JV.Gen.T_nested JV.Proofs.NJobs.
 Require Import JV.Model.C15Executor JV.Gen.T_executor JV.Proofs.C15Executor.
+Require Import JV.Model.Config JV.Gen.T_active_backend JV.Proofs.C15Active.
 Import ListNotations.
 Open Scope Z_scope.
 
@@ -112,9 +113,9 @@ Theorem C15_nesting :
   (forall k, nested_backend {| bkind := k; blevel := 0 |} = {| bkind := KThr; blevel := 1 |}) /\
   (forall k l, 1 <= l -> nested_backend {| bkind := k; blevel := l |} = {| bkind := KSeq; blevel := l + 1 |}) /\
   (forall c s, worker_inv s -> default_tree c = true -> procs s c = 0) /\
-  (forall cpus n children, n <> 0 -> resolve cpus n <> 1 -> default_tree (Call None n children) = true ->
-     procs (top_site cpus) (Call None n children) = resolve cpus n) /\
-  (forall c cpus, default_tree c = true -> procs (top_site cpus) c = frontier cpus c).
+  (forall cpus n children, n <> 0 -> resolve cpus n <> 1 -> default_tree (Call None no_hint n children) = true ->
+     procs (top_site cpus) (Call None no_hint n children) = resolve cpus n) /\
+  (forall c cpus, nohint_tree c = true -> procs (top_site cpus) c = frontier cpus c).
 Proof. exact C15_nesting_holds. Qed.
 Print Assumptions C15_nesting.
 
@@ -147,6 +148,20 @@ Theorem C15_pool_sized_to_n_jobs : forall n, thr_pool_size n = n /\ loky_pool_si
 Proof. exact pool_sizes. Qed.
 Print Assumptions C15_pool_sized_to_n_jobs.
 
+(* THE NESTING THEOREMS GO THROUGH THE REGENERATED _get_active_backend.  [source_active s h] is _get_active_backend
+   (Gen/T_active_backend.v, regenerated from joblib/parallel.py on every run) applied to the configuration joblib installed at
+   site s (the nested backend returned by get_nested_backend, n_jobs None) and to the hints h of the nested call;
+   [call_outcome_src] composes it with the regenerated configure methods.  They ARE the model's [active_h] / [call_outcome]
+   that C15_nesting and C15_nesting_concurrency are about (for every call, whatever prefer/require it passes); and inside a
+   worker no hint -- not even prefer='processes' -- replaces the thread-based / sequential backend of the context. *)
+Theorem C15_nested_resolution_regenerated :
+  (forall s h, source_active s h = active_h s h) /\
+  (forall s bsel h n, call_outcome_src s bsel h n = call_outcome s bsel h n) /\
+  (forall s b h, s_ctx s = Some b -> kind_shm (bkind b) = true ->
+     source_active s h = if hint_valid h then Ok b else Raise ValueError).
+Proof. exact nested_resolution_regenerated. Qed.
+Print Assumptions C15_nested_resolution_regenerated.
+
 (* NESTING NEVER MULTIPLIES BEYOND TWO LEVELS.  [conc s c]: tasks in flight at once if every pool runs as many tasks as it
    has workers.  For EVERY tree of default-backend calls (induction on the tree):
    - in a sequential context (below two parallel levels) every call runs one task at a time, whatever its n_jobs;
@@ -156,15 +171,15 @@ Print Assumptions C15_pool_sized_to_n_jobs.
 Theorem C15_nesting_concurrency :
   (forall c s, seq_site s -> default_tree c = true -> conc s c <= 1) /\
   (forall c s, thr_site s -> default_tree c = true -> conc s c <= maxres (e_cpus (s_env s)) c) /\
-  (forall c cpus, default_tree c = true -> conc (top_site cpus) c <= maxres cpus c * maxres cpus c) /\
-  (forall cpus n children, n <> 0 -> resolve cpus n <> 1 -> default_tree (Call None n children) = true ->
-     conc (top_site cpus) (Call None n children) <= resolve cpus n * max_maxres cpus children).
+  (forall c cpus, nohint_tree c = true -> conc (top_site cpus) c <= maxres cpus c * maxres cpus c) /\
+  (forall cpus n children, n <> 0 -> resolve cpus n <> 1 -> default_tree (Call None no_hint n children) = true ->
+     conc (top_site cpus) (Call None no_hint n children) <= resolve cpus n * max_maxres cpus children).
 Proof. exact C15_nesting_concurrency_holds. Qed.
 Print Assumptions C15_nesting_concurrency.
 
 (* a chain 4 -> 3 -> 5 -> 7 of default calls runs at most 4 x 3 tasks at once: levels three and four add nothing *)
 Example C15_example_concurrency :
-  conc (top_site 16) (Call None 4 [Call None 3 [Call None 5 [Call None 7 []]]]) = 12 /\
+  conc (top_site 16) (Call None no_hint 4 [Call None no_hint 3 [Call None no_hint 5 [Call None no_hint 7 []]]]) = 12 /\
   seq_site (worker_site (worker_site (top_site 16) default_backend) {| bkind := KThr; blevel := 1 |}) /\
   thr_site (worker_site (top_site 16) default_backend).
 Proof.
@@ -226,11 +241,11 @@ Print Assumptions C15_example_resolve.
 (* a depth-3 tree of default calls below a 4-worker top-level call: 4 processes, nothing more;
    the same tree with an explicitly requested loky backend inside a worker's main thread does multiply *)
 Example C15_example_tree :
-  let leaf := Call None 2 [] in
-  let t := Call None 4 [Call None 3 [Call None 2 [leaf; leaf]; leaf]; Call None (-1) [leaf]] in
+  let leaf := Call None no_hint 2 [] in
+  let t := Call None no_hint 4 [Call None no_hint 3 [Call None no_hint 2 [leaf; leaf]; leaf]; Call None no_hint (-1) [leaf]] in
   default_tree t = true /\ worker_inv (worker_site (top_site 16) default_backend) /\
   procs (top_site 16) t = 4 /\
-  procs (top_site 16) (Call None 4 [Call (Some KLoky) 3 []]) = 7.
+  procs (top_site 16) (Call None no_hint 4 [Call (Some KLoky) no_hint 3 []]) = 7.
 Proof.
   split; [reflexivity|]. split; [|split; vm_compute; reflexivity].
   exists {| bkind := KThr; blevel := 1 |}. cbn. split; [reflexivity|]. split; [left; reflexivity|lia].
